@@ -184,7 +184,8 @@ pub(crate) mod verif_proofs {
         x.map(|u| t0() + Duration::from_secs(u))
     }
     fn any_opt_us() -> Option<u64> {
-        if kani::any() { Some(kani::any::<u32>() as u64) } else { None }
+        // offsets below 2^16 seconds: with 32-bit offsets the same proofs take 2-7 minutes each, with a large variance
+        if kani::any() { Some(kani::any::<u16>() as u64) } else { None }
     }
     // written from the statement: time to the earliest of the given instants that is not in the past
     fn earliest(xs: &[Option<u64>], now: u64) -> Duration {
@@ -207,7 +208,7 @@ pub(crate) mod verif_proofs {
     #[kani::proof]
     #[kani::unwind(5)]
     pub(crate) fn k_sim_peek_action() {
-        let n = kani::any::<u32>() as u64;
+        let n = kani::any::<u16>() as u64;
         let now = t0() + Duration::from_secs(n);
         let xs: [Option<u64>; 3] = [any_opt_us(), any_opt_us(), any_opt_us()];
         let sa = |t: Option<Instant>, m: usize| t.map(|time| ScheduledAction {
@@ -225,7 +226,7 @@ pub(crate) mod verif_proofs {
     #[kani::proof]
     #[kani::unwind(5)]
     pub(crate) fn k_sim_peek_timer() {
-        let n = kani::any::<u32>() as u64;
+        let n = kani::any::<u16>() as u64;
         let now = t0() + Duration::from_secs(n);
         let xs: [Option<u64>; 3] = [any_opt_us(), any_opt_us(), any_opt_us()];
         let ic = vec![at(xs[0]), at(xs[1])];
@@ -240,7 +241,7 @@ pub(crate) mod verif_proofs {
     #[kani::proof]
     #[kani::unwind(3)]
     pub(crate) fn k_sim_peek_blocked() {
-        let n = kani::any::<u32>() as u64;
+        let n = kani::any::<u16>() as u64;
         let now = t0() + Duration::from_secs(n);
         let (xc, xs) = (any_opt_us(), any_opt_us());
         kani::assume(xc.map_or(true, |x| x >= n) && xs.map_or(true, |x| x >= n));
@@ -258,7 +259,7 @@ pub(crate) mod verif_proofs {
     #[kani::proof]
     #[kani::unwind(4)]
     pub(crate) fn k_sim_peek_action_2() {
-        let n = kani::any::<u32>() as u64;
+        let n = kani::any::<u16>() as u64;
         let now = t0() + Duration::from_secs(n);
         let xs: [Option<u64>; 2] = [any_opt_us(), any_opt_us()];
         let sa = |t: Option<Instant>, m: usize| t.map(|time| ScheduledAction {
@@ -274,8 +275,9 @@ pub(crate) mod verif_proofs {
 
     #[kani::proof]
     #[kani::unwind(4)]
+    #[kani::solver(kissat)]
     pub(crate) fn k_sim_peek_timer_2() {
-        let n = kani::any::<u32>() as u64;
+        let n = kani::any::<u16>() as u64;
         let now = t0() + Duration::from_secs(n);
         let xs: [Option<u64>; 2] = [any_opt_us(), any_opt_us()];
         let ic = vec![at(xs[0])];
